@@ -644,6 +644,8 @@ var injections = []injection{
 	{name: "labelled-break-trivial", stmt: "outer:\n\tfor i := 0; i < 2; i++ {\n\t\tfor j := 0; j < 2; j++ {\n\t\t\ttr.Ev(1, i, j)\n\t\t\tif j == 0 {\n\t\t\t\tbreak outer\n\t\t\t}\n\t\t}\n\t}"},
 	{name: "select-yielding", stmt: "ch := tr.Chan(7)\n\tselect {\n\tcase v := <-ch:\n\t\t$YIELD{v}\n\tdefault:\n\t\t$YIELD{-1}\n\t}"},
 	{name: "select-trivial", stmt: "ch := tr.Chan(7)\n\tselect {\n\tcase v := <-ch:\n\t\ttr.Ev(1, v)\n\tdefault:\n\t\ttr.Ev(2)\n\t}"},
+	{name: "select-trivial-with-break-in-yielding-loop", stmt: "ch := tr.Chan(7, 0, 8)\n\tfor i := 0; i < 4; i++ {\n\t\tselect {\n\t\tcase v := <-ch:\n\t\t\tif v == 0 {\n\t\t\t\tbreak\n\t\t\t}\n\t\t\ttr.Ev(1, v)\n\t\tdefault:\n\t\t\ttr.Ev(2)\n\t\t}\n\t\t$YIELD{i}\n\t}"},
+	{name: "select-trivial-with-break-top-level", stmt: "ch := tr.Chan(0)\n\tselect {\n\tcase v := <-ch:\n\t\tif v == 0 {\n\t\t\tbreak\n\t\t}\n\t\ttr.Ev(1, v)\n\t}"},
 	{name: "defer", stmt: "defer tr.Ev(1, a)"},
 	{name: "defer-in-block-after-yield", stmt: "{\n\t\t$YIELD{5}\n\t\tdefer tr.Ev(1, a)\n\t}"},
 	{name: "fallthrough-yielding", stmt: "switch a % 2 {\n\tcase 0:\n\t\t$YIELD{10}\n\t\tfallthrough\n\tcase 1:\n\t\t$YIELD{11}\n\t}"},
@@ -841,6 +843,57 @@ $GEN{$NG(a int)}{int}{
 	$YIELD{9}
 	$RET
 }`, entries: []*Entry{drive("$NG", "int", 1, nil)}},
+	{name: "for-post-calls-nil-func-variable", tags: []string{"panic"}, decls: `
+$GEN{$NG(a int)}{int}{
+	var step func()
+	n := 0
+	if a > 1 {
+		step = func() { n++ }
+	}
+	for i := 0; i < 3; step() {
+		tr.Ev(1, i, n)
+		$YIELD{i*10 + n}
+		i++
+	}
+	$YIELD{99}
+	$RET
+}`, entries: []*Entry{drive("$NG", "int", 1, nil)}},
+	{name: "for-post-calls-method-of-nil-interface", tags: []string{"panic"}, decls: `
+type $NS interface{ Step() }
+
+type $NImpl struct{ n *int }
+
+func (s $NImpl) Step() { *s.n++ }
+
+$GEN{$NG(a int)}{int}{
+	var s $NS
+	cnt := 0
+	if a%2 == 1 {
+		s = $NImpl{&cnt}
+	}
+	for i := 0; i < 3; s.Step() {
+		tr.Ev(1, i, cnt)
+		$YIELD{i*10 + cnt}
+		i++
+	}
+	$RET
+}`, entries: []*Entry{drive("$NG", "int", 1, nil)}},
+	{name: "loop-cond-calls-nil-func-variable", tags: []string{"panic"}, decls: `
+$GEN{$NG(a int)}{int}{
+	var more func() bool
+	n := 0
+	if a > 0 {
+		more = func() bool { n++; return n < 3 }
+	}
+	$YIELD{7}
+	for more() {
+		$YIELD{n}
+		if n == a {
+			more = nil
+		}
+	}
+	$RET
+}`, entries: []*Entry{drive("$NG", "int", 1, nil)}},
 	{name: "return-call-that-panics", tags: []string{"panic"}, decls: `
 func $NBoom(a int) $ITER{int} {
 	if a > 0 {
@@ -855,6 +908,89 @@ $GEN{$NG(a int)}{int}{
 		$SONLY{return $NBoom(a)}$RONLY{_ = $NBoom(a); return}
 	}
 	$YIELD{2}
+	$RET
+}`, entries: []*Entry{drive("$NG", "int", 1, nil)}},
+}
+
+// ---- C13 (second half): ordinary closures INSIDE generator bodies keep their meaning ------------------
+
+var closureInGeneratorShapes = []shape{
+	{name: "per-iteration-loop-variable-in-nested-closure", decls: `
+$GEN{$NG(a int)}{int}{
+	collect := func(n int) []func() int {
+		var fs []func() int
+		for i := 0; i < n; i++ {
+			fs = append(fs, func() int { return i*10 + a })
+		}
+		return fs
+	}
+	for _, f := range collect(3) {
+		$YIELD{f()}
+	}
+	$RET
+}`, entries: []*Entry{drive("$NG", "int", 1, nil)}},
+	{name: "pointer-to-loop-variable-in-nested-closure", decls: `
+$GEN{$NG(a int)}{int}{
+	ptrs := func() (ps []*int) {
+		for i := 0; i < 3; i++ {
+			ps = append(ps, &i)
+		}
+		return
+	}()
+	for _, p := range ptrs {
+		$YIELD{*p + a}
+	}
+	$RET
+}`, entries: []*Entry{drive("$NG", "int", 1, nil)}},
+	{name: "switch-and-if-init-in-nested-closure", decls: `
+$GEN{$NG(a int)}{int}{
+	classify := func(x int) int {
+		switch y := x * 2; {
+		case y > 4:
+			return y
+		}
+		if z := x + 1; z > 1 {
+			return -z
+		}
+		return 0
+	}
+	for i := 0; i < 4; i++ {
+		$YIELD{classify(i + a)}
+	}
+	$RET
+}`, entries: []*Entry{drive("$NG", "int", 1, nil)}},
+	{name: "return-values-and-defer-in-nested-closure", decls: `
+$GEN{$NG(a int)}{int}{
+	f := func(x int) (r int, err error) {
+		defer func() { r += 1000 }()
+		if x > 1 {
+			return x, nil
+		}
+		return -x, tr.Err{N: x}
+	}
+	for i := 0; i < 3; i++ {
+		v, err := f(i + a)
+		tr.Ev(1, v, err)
+		$YIELD{v}
+	}
+	$RET
+}`, entries: []*Entry{drive("$NG", "int", 1, nil)}},
+	{name: "range-loops-and-labels-in-nested-closure", decls: `
+$GEN{$NG(a int)}{int}{
+	sum := func(xs []int, s string) (t int) {
+	outer:
+		for i, x := range xs {
+			for j, r := range s {
+				if r == 'b' {
+					continue outer
+				}
+				t += i*x + j
+			}
+		}
+		return
+	}
+	$YIELD{sum([]int{1, 2, a}, "abc")}
+	$YIELD{sum(nil, "")}
 	$RET
 }`, entries: []*Entry{drive("$NG", "int", 1, nil)}},
 }
